@@ -94,6 +94,13 @@ GHOSTS = {
 # call sites, so the content of the trace is not needed.
 GHOSTS['eff'] = IntS
 GHOSTS['mkdtemp_at'] = IntS
+# the last query re-executed through SimpleOperationExecutor.exec (scratch ghosts: written by exec's
+# contract, read by the exit obligation of _is_simple_operation_cached, never part of a frame)
+from pyvc.sorts import PyV as _PyV
+GHOSTS['xq_n'] = IntS                     # number of exec calls so far
+GHOSTS['xq_val'] = _PyV                   # value returned by the last exec call
+GHOSTS['xq_exc'] = OPT(STR).sort()        # class name of the OSError it raised instead (or none)
+SCRATCH_GHOSTS = ('xq_n', 'xq_val', 'xq_exc')
 
 
 def log_append(lg, e):
